@@ -189,7 +189,7 @@ def run(ctx):
             for case in CORPUS:
                 check_case(ctx, case, tmp)
                 ctx.count("corpus")
-        n = 380 if ctx.quick() else 6000 // wcount
+        n = 380 if ctx.quick() else 24000 // wcount
         for _ in range(n):
             check_case(ctx, c04.gen_case(ctx.rng, ctx.quick(), empty_axes=(ctx.rng.random() < 0.3)), tmp)
         if widx == 0:
